@@ -940,6 +940,12 @@ def _tolinen_subtypes(res):
   class MyParam(nnx.Param):
     pass
 
+  class Stat(nnx.Variable):
+    pass
+
+  class SlowStat(Stat):
+    pass
+
   class Inner(nnx.Module):
     def __init__(self, rngs=None):
       self.w = nnx.Param(jnp.asarray([1.0, 2.0]))
@@ -947,6 +953,10 @@ def _tolinen_subtypes(res):
       self.lo = nnx.LoRAParam(jnp.asarray([3.0, 4.0]))
       self.mine = MyParam(jnp.asarray([5.0]))
       self.mean = nnx.BatchStat(jnp.zeros(()))
+      # a user hierarchy (the subtype is met first) and a bare Variable
+      self.a_slow = SlowStat(jnp.asarray([6.0]))
+      self.b_stat = Stat(jnp.asarray([7.0]))
+      self.raw = nnx.Variable(jnp.asarray([8.0]))
 
     def __call__(self, x):
       self.steps.value = self.steps.value + 1.0
@@ -959,9 +969,25 @@ def _tolinen_subtypes(res):
   model = bridge.to_linen(Inner)
   res['evals'] += 1
   variables = model.init(jax.random.key(0), x)
-  type_name = {n: nnx.variable_name_from_type(t) for n, t in
-               dict(w=nnx.Param, steps=nnx.Param, lo=nnx.LoRAParam, mine=MyParam,
-                    mean=nnx.BatchStat).items()}
+  var_type = dict(w=nnx.Param, steps=nnx.Param, lo=nnx.LoRAParam, mine=MyParam,
+                  mean=nnx.BatchStat, a_slow=SlowStat, b_stat=Stat, raw=nnx.Variable)
+  # collection names are read off the tree init returned and validated without asking the
+  # library's own type->name function: one collection per type, different types in different
+  # collections, and the two documented names
+  where = {n: c for c in variables if c != 'nnx' for n in variables[c]}
+  by_type = {}
+  for n, t in var_type.items():
+    by_type.setdefault(t, set()).add(where.get(n))
+  bad = [t.__name__ for t, cs in by_type.items() if len(cs) != 1 or None in cs]
+  firsts = [next(iter(cs)) for cs in by_type.values()]
+  if bad or len(set(firsts)) != len(firsts) or by_type[nnx.Param] != {'params'} or \
+     by_type[nnx.BatchStat] != {'batch_stats'}:
+    core.violation(res, 'tolinen-subtype-collections',
+                   'Variable types and Linen collections are not in one-to-one correspondence '
+                   '(a type split over collections, two types in one collection, or Param / '
+                   'BatchStat not under params / batch_stats)', dict(),
+                   observed={t.__name__: sorted(map(str, cs)) for t, cs in by_type.items()})
+  type_name = {n: where.get(n, '?') for n in var_type}
   cols = sorted(set(type_name.values()))
 
   def placement(vs):
@@ -975,7 +1001,8 @@ def _tolinen_subtypes(res):
   ref = Inner()
   y_ref = ref(x)
   after = dict(w=ref.w.value, steps=ref.steps.value, lo=ref.lo.value, mine=ref.mine.value,
-               mean=ref.mean.value)
+               mean=ref.mean.value, a_slow=ref.a_slow.value, b_stat=ref.b_stat.value,
+               raw=ref.raw.value)
   for r in range(0, len(cols) + 1):
     for mut in itertools.combinations(cols, r):
       for form in ((list(mut),) if mut else (False,)) + ((True,) if r == len(cols) else ()):
